@@ -183,18 +183,20 @@ theorem insertTy_eq (v : Var) (t : VarTy) (n : Str) (x : Val) :
     | rfl
     | (split <;> rfl)
 
-/-- **`Var.store`**: OUT OF MEMORY for a full pool; otherwise the type `t` of the name decides the
-    conversion, and the converted value is written by `updateVal` -/
+/-- **`Var.store`**: OUT OF MEMORY for a full pool and a name it does not hold yet (D23: a name the
+    pool holds is never refused); otherwise the type `t` of the name decides the conversion, and the
+    converted value is written by `updateVal` -/
 theorem store_eq (v : Var) (n : Str) (x : Val) (t : VarTy) (ht : v.tyOf n = .ok (some t)) :
     v.store n x =
-      if v.vars.length > 65535 then err Code.outOfMemory
+      if v.vars.length > 65535 ∧ AL.contains n v.vars = false then err Code.outOfMemory
       else match assignConv t x with
         | .ok y => .ok (v.updateVal n y)
         | .error e => .error e := by
   unfold store
-  split
-  · rfl
-  · simp only [ht, bind, Except.bind]
+  by_cases hc : v.vars.length > 65535 ∧ AL.contains n v.vars = false
+  · rw [if_pos hc, if_pos ⟨hc.1, by rw [hc.2]; exact Bool.false_ne_true⟩]
+  · rw [if_neg hc, if_neg (fun h => hc ⟨h.1, by simpa using h.2⟩)]
+    simp only [ht, bind, Except.bind]
     exact insertTy_eq v t n x
 
 /-! ### the type of the target: suffix, else DEFtype letter -/
@@ -272,7 +274,7 @@ theorem let_assign_ok {e : Expr} (hp : Pure e) (name : Str) (s : Runtime)
       (∃ z, (s.vars.updateVal name y).fetch name = .ok z ∧ z.ty = t.toTy) ∧
       (∀ k, k ≠ name → (s.vars.updateVal name y).fetch k = s.vars.fetch k) := by
   have hst : s.vars.store name x = .ok (s.vars.updateVal name y) := by
-    rw [store_eq _ _ _ t ht, if_neg (by omega), hy]
+    rw [store_eq _ _ _ t ht, if_neg (fun h => by omega), hy]
   have hty := assignConv_ty hy
   refine ⟨?_, hty, fetch_updateVal _ _ t y ht, fetch_updateVal_ty _ _ t y ht hty,
     fun k hk => fetch_updateVal_ne _ hk y⟩
@@ -287,17 +289,18 @@ theorem let_assign_conv_error {e : Expr} (hp : Pure e) (name : Str) (s : Runtime
     (x : Val) (err : Error) (hx : eval s.vars e = .ok x) (hy : assignConv t x = .error err) :
     runOps env hie (letCode e name) s = (.error err, { s with pc := s.pc + ((flat e).length + 1) }) := by
   have hst : s.vars.store name x = .error err := by
-    rw [store_eq _ _ _ t ht, if_neg (by omega), hy]
+    rw [store_eq _ _ _ t ht, if_neg (fun h => by omega), hy]
   rw [let_run env hie hp name s hcode htr hroom x hx, hst]
 
-/-- a full pool: OUT OF MEMORY, nothing stored -/
+/-- a full pool and a variable it does not hold yet: OUT OF MEMORY, nothing stored -/
 theorem let_assign_full {e : Expr} (hp : Pure e) (name : Str) (s : Runtime)
     (hcode : CodeAt s.program.link.ops s.pc (letCode e name)) (htr : s.tron = false)
     (hroom : s.stack.size + (flat e).length ≤ 65535) (hpool : 65535 < s.vars.vars.length)
+    (hnew : AL.contains name s.vars.vars = false)
     (x : Val) (hx : eval s.vars e = .ok x) :
     runOps env hie (letCode e name) s =
       (.error (Error.mk' Code.outOfMemory), { s with pc := s.pc + ((flat e).length + 1) }) := by
-  rw [let_run env hie hp name s hcode htr hroom x hx, store_full _ _ _ hpool]
+  rw [let_run env hie hp name s hcode htr hroom x hx, store_full _ _ _ hpool hnew]
   rfl
 
 /-- **`LET v = e`, the expression fails**: the run stops in the expression's error before the store is
